@@ -107,6 +107,14 @@ CHECKS = {
         design_ref="DESIGN.md §4 C12",
         note="Faults are not injected inside the cleanup path itself (MetaDataSession.__exit__/deregister); line failpoints are sampled in quick, exhaustive per script in thorough.",
     ),
+    "C13": dict(
+        technique="differential + reference-model monitor: statement templates x every known/unknown assignment x overlap pattern x both bundled providers, and generated statements under random metadata",
+        category="exploration",
+        text="For every assignment of (known with columns | unknown) to the tables of star / qualified-star / unqualified-column / INSERT with and without column list templates, and for generated "
+             "statements with random metadata, the run with a provider is compared with the run without (table lineage identical; all-unknown identical) and with the reference expansion/attribution.",
+        design_ref="DESIGN.md §4 C13",
+        note="The SQLAlchemy provider runs on scratch sqlite files (one fresh set per case); which known table a shared star column is attributed to is left undecided (table level only).",
+    ),
     "C14": dict(
         technique="differential monitor at AST level: unqualified rendering under default schema S vs S-qualified rendering without default, three configuration mechanisms (worker env before import, env after import, scoped override)",
         category="exploration",
